@@ -5,6 +5,7 @@
 (* the container state read through the verif accessors.                   *)
 (*   reset {ratio, ...}                                                    *)
 (*   step  {a, st, keys, entries}                                          *)
+(*   batch {as, st, keys, entries}       critical sections queued on the held mutex    *)
 (*   mon   {kind: "in"|"out", p, k, m}   free-running monitor events       *)
 EXTENDS Semap, Json, IOUtils
 
@@ -35,6 +36,33 @@ TStep(e) ==
   /\ e.entries = Cardinality({k \in Keys : ent'[k] # 0})
   /\ UNCHANGED inside
 
+(* A batch: the harness held the map mutex while the batch's calls queued on it, then let go, so   *)
+(* their critical sections ran back to back.  Cancellations have left the select before the     *)
+(* batch ran (CancelWake first); the critical sections themselves may have run in any order -    *)
+(* TLC searches the permutations - and the quiescent observation must match the result.          *)
+TBatch(e) ==
+  LET as == e.as
+      n  == Len(as)
+      RECURSIVE Wake(_, _)
+      Wake(s, i) == IF i > n THEN s
+                    ELSE IF as[i].op = "cancel" /\ CanCancelWake(s, as[i].p)
+                         THEN Wake(CancelWakeF(s, as[i].p), i + 1) ELSE Wake(s, i + 1)
+      item(i) == IF as[i].op = "cancel" THEN [op |-> "cresolve", p |-> as[i].p] ELSE as[i]
+      RECURSIVE Run(_, _, _)
+      Run(s, f, i) == IF i > n THEN [ok |-> TRUE, s |-> s]
+                      ELSE IF CanF(s, item(f[i])) THEN Run(ApplyF(s, item(f[i])), f, i + 1)
+                           ELSE [ok |-> FALSE, s |-> s]
+      s0 == Wake(S, 1)
+  IN \E f \in Permutations(1..n) :
+       LET r == Run(s0, f, 1) IN
+         /\ r.ok
+         /\ Install(r.s)
+         /\ last' = [op |-> "batch"]
+         /\ \A p \in 1..Len(e.st) : e.st[p] = Status(pc'[p])
+         /\ \A k \in 1..Len(e.keys) : e.keys[k] = KeyObs(k, ent', cur', wq')
+         /\ e.entries = Cardinality({k \in Keys : ent'[k] # 0})
+         /\ UNCHANGED inside
+
 (* Free-running stress: `in` is logged after an acquire returned, `out`    *)
 (* before the release is called, so logged hold intervals lie inside the   *)
 (* real ones and an overlap in the log is a real overlap.                  *)
@@ -57,6 +85,7 @@ TraceNext ==
   /\ LET e == TraceLog[l] IN
        CASE e.ev = "reset" -> TReset(e)
          [] e.ev = "step"  -> TStep(e)
+         [] e.ev = "batch" -> TBatch(e)
          [] e.ev = "mon"   -> TMon(e)
          [] e.ev = "end"   -> TEnd(e)
          [] OTHER -> FALSE
